@@ -452,6 +452,13 @@ func unboundedSize(p *Program, v ssa.Value, d int) string {
 		if id == "builtin:len" || id == "builtin:cap" || id == "builtin:min" {
 			return ""
 		}
+		// counting functions of the standard library are bounded by the length of a value that is
+		// already in memory, exactly like len
+		switch id {
+		case "strings.Count", "bytes.Count", "unicode/utf8.RuneCountInString", "unicode/utf8.RuneCount",
+			"strings.Index", "strings.LastIndex", "strings.IndexByte", "strings.IndexRune", "bytes.Index", "bytes.IndexByte":
+			return ""
+		}
 		return "the result of " + id
 	case *ssa.BinOp:
 		if w := unboundedSize(p, x.X, d+1); w != "" {
